@@ -9,7 +9,8 @@ import ast
 from .. import astutil as A
 from ..fa import FA
 from ..loader import AnalysisError
-from .cache_model import CacheModel, self_attr, CACHE_CLASS
+from .cache_model import (CacheModel, self_attr, assign_pairs, CACHE_CLASS, branch_filter, both, no_back_edges, every_path_through,
+                          at_most_once, bool_leaves, edge_implies, linear_terms, safe_expand, value_sources)
 
 
 def _block_of(fa: FA, st):
@@ -48,6 +49,91 @@ def size_forms(fa: FA, ins: ast.Assign):
     return entry, size_expr, forms
 
 
+def _xn(fa: FA, e, at):
+    """Name-independent text of `e` evaluated at statement / expression `at`."""
+    ids = fa.nodes(at)
+    try:
+        return fa.xnorm(e, ids[0]) if ids else A.norm(e)
+    except AnalysisError:
+        return A.norm(e)
+
+
+def _in_loop(fa: FA, st) -> bool:
+    return fa.enclosing(st, (ast.For, ast.While, ast.AsyncFor)) is not None
+
+
+def _entry_size_read(fa: FA, cm, v, at_stmt, kx):
+    """Is `v` (evaluated in `at_stmt`) the recorded size of the resident entry of key `kx` -- `<e>.obj_size`
+    with <e> being `self.map[k]` / `self.map.get(k)` directly or through locals?  -> CFG nodes at which the
+    entry is read out of the map (None when `v` is something else)."""
+    if not (isinstance(v, ast.Attribute) and v.attr == "obj_size"):
+        return None
+    nodes = fa.nodes(at_stmt)
+    if not nodes:
+        return None
+    base = v.value
+    read_nodes = list(nodes)
+    hops = 0
+    while isinstance(base, ast.Name) and hops < 6:
+        ds = []
+        for i in read_nodes:
+            ds += fa.df.reaching(i, base.id)
+        ds = list({d.node: d for d in ds}.values())
+        if len(ds) != 1 or ds[0].kind != "assign" or ds[0].value is None:
+            return None
+        base, read_nodes = ds[0].value, [ds[0].node]
+        hops += 1
+    key = None
+    if isinstance(base, ast.Subscript) and self_attr(base.value, cm.map):
+        key = base.slice
+    elif isinstance(base, ast.Call) and A.call_attr(base) == "get" and self_attr(A.call_recv(base), cm.map) and base.args \
+            and (len(base.args) == 1 or A.is_none(base.args[1])):
+        key = base.args[0]
+    if key is None:
+        return None
+    try:
+        if fa.xnorm(key, read_nodes[0]) != kx:
+            return None
+    except AnalysisError:
+        return None
+    return read_nodes
+
+
+def _deletion_balanced(fa: FA, cm, st, kx):
+    """`del self.map[k]` is paired with exactly one `counter -= <size recorded in the entry of k>` on every path
+    through it, and that size is read out of the map before the entry is gone.  -> (ok, why)"""
+    blk = _block_of(fa, st)
+    augs = [s2 for s2 in fa.stmts(ast.AugAssign) if isinstance(s2.op, ast.Sub) and self_attr(s2.target, cm.counter)]
+    if not augs:
+        return False, "no `%s -= <entry>.obj_size` beside the deletion" % cm.counter
+    decs, reads = [], []
+    why = ""
+    for s2 in augs:
+        rn = _entry_size_read(fa, cm, s2.value, s2, kx)
+        if rn is None:
+            if s2 in blk or len(augs) == 1:
+                why = "the subtracted size is not read from %s[%s]" % (cm.map, A.norm(st.targets[0].slice)) \
+                    if isinstance(s2.value, ast.Attribute) and s2.value.attr == "obj_size" else "the subtracted amount is not the entry's obj_size"
+            continue
+        decs.append(s2)
+        reads += rn
+    if not decs:
+        return False, why or "no `%s -= <entry>.obj_size` beside the deletion" % cm.counter
+    dn, decn = fa.nodes(st), fa.nodes_all(decs)
+    if not all(fa.cfg.must_pass(reads, d) for d in dn):
+        return False, "the size is read after the entry is deleted"
+    in_blk = [s2 for s2 in decs if s2 in blk]
+    if len(in_blk) == 1 and (len(decs) == 1 or _in_loop(fa, st)):
+        return True, ""
+    if _in_loop(fa, st):
+        return False, why or "no `%s -= <entry>.obj_size` beside the deletion" % cm.counter
+    if not every_path_through(fa, dn, decn):
+        return False, why or "the deletion is not balanced by a counter decrement on every path"
+    if not at_most_once(fa, decn):
+        return False, "the entry's size is subtracted more than once"
+    return True, ""
+
+
 def check_accounting(ck, cm: CacheModel):
     R = "C06.R1"
     ck.rule(R, "accounting pairing: every mutation of the resident map / recency queue is balanced by the "
@@ -77,31 +163,17 @@ def check_accounting(ck, cm: CacheModel):
                 for t in st.targets:
                     if isinstance(t, ast.Subscript) and self_attr(t.value, cm.map):
                         k = A.norm(t.slice)
-                        blk = _block_of(fa, st)
-                        ok = False
-                        why = "no `%s -= <entry>.obj_size` beside the deletion" % cm.counter
-                        for s2 in blk:
-                            if isinstance(s2, ast.AugAssign) and isinstance(s2.op, ast.Sub) and self_attr(s2.target, cm.counter):
-                                v = s2.value
-                                if isinstance(v, ast.Attribute) and v.attr == "obj_size":
-                                    src = _resolve_local(fa, v.value, s2)
-                                    if (isinstance(src, ast.Subscript) and self_attr(src.value, cm.map)
-                                            and A.norm(src.slice) == k):
-                                        ok = blk.index(s2) < blk.index(st)
-                                        why = "the size is read after the entry is deleted" if not ok else ""
-                                    else:
-                                        why = "the subtracted size is not read from %s[%s]" % (cm.map, k)
-                                else:
-                                    why = "the subtracted amount is not the entry's obj_size"
+                        kx = _xn(fa, t.slice, st)
+                        ok, why = _deletion_balanced(fa, cm, st, kx)
                         ck.ob(R, fa.key(st, "del-map"), ok, why or "deletion balanced by counter decrement", fa.where(st))
                         # the queue must drop the key too (same method)
-                        rem = [c for c in fa.calls("remove") if self_attr(A.call_recv(c), cm.queue) and c.args and A.norm(c.args[0]) == k]
+                        rem = [c for c in fa.calls("remove") if self_attr(A.call_recv(c), cm.queue) and c.args and _xn(fa, c.args[0], c) == kx]
                         ck.ob(R, fa.key(st, "del-queue"), bool(rem),
                               "key removed from the recency queue in the same method" if rem else
                               "the deleted key is not removed from the recency queue", fa.where(st))
             # ---- deletions through pop()
             for c in [c for c in A.calls_in(st) if A.call_attr(c) in ("pop", "popitem") and self_attr(A.call_recv(c), cm.map)] if not isinstance(st, (ast.If, ast.For, ast.While, ast.With, ast.Try)) else []:
-                k = A.norm(c.args[0]) if c.args else "?"
+                k = _xn(fa, c.args[0], st) if c.args else "?"
                 ok = False
                 edge_ok = None
                 why = "the popped entry's size is not subtracted from %s" % cm.counter
@@ -111,21 +183,20 @@ def check_accounting(ck, cm: CacheModel):
                 elif isinstance(st, ast.Assign) and st.value is c and isinstance(st.targets[0], ast.Name):
                     ename = st.targets[0].id
                     subs = [s2 for s2 in fa.stmts(ast.AugAssign) if isinstance(s2.op, ast.Sub) and self_attr(s2.target, cm.counter)
-                            and A.norm(s2.value) == ename + ".obj_size"]
-                    # every path from the pop to the exit either subtracts or found nothing (entry is None)
-                    none_tests = [n.id for n in fa.cfg.nodes if n.kind == "test" and A.norm(n.ast) in ("%s is None" % ename, "not %s" % ename, "%s is not None" % ename, ename)]
-                    def edge_ok(s_, d_, l_, nt=none_tests):
-                        if s_ in nt:
-                            t = A.norm(fa.cfg.node(s_).ast)
-                            neg = t.endswith("is None") or t.startswith("not ")
-                            return not ((neg and l_ == "T") or (not neg and l_ == "F"))
-                        return True
+                            and isinstance(s2.value, ast.Attribute) and s2.value.attr == "obj_size" and isinstance(s2.value.value, ast.Name)
+                            and any(d.node in fa.nodes(st) for i in fa.nodes(s2) for d in fa.df.reaching(i, s2.value.value.id))
+                            and all(len(fa.df.reaching(i, s2.value.value.id)) == 1 for i in fa.nodes(s2))]
+                    # every path from the pop to the exit either subtracts or found nothing (the popped value is None / falsy)
+                    popx = A.norm(c)
+                    edge_ok = branch_filter(fa, lambda t_, p_, popx=popx, ename=ename: (p_ and t_ in (popx + " is None", ename + " is None"))
+                                            or (not p_ and t_ in (popx, ename)))
                     ok = bool(subs) and all(fa.cfg.exit not in fa.cfg.reach([i], removed=fa.nodes_all(subs), edge_ok=edge_ok, include_start=False) for i in fa.nodes(st))
                 ck.ob(R, fa.key(st, "pop-map"), ok, "pop() balanced by counter decrement" if ok else why, fa.where(st))
-                rem = [x for x in fa.calls("remove") if self_attr(A.call_recv(x), cm.queue) and x.args and A.norm(x.args[0]) == k]
-                # the queue entry goes whenever the key may be queued, also when it was not resident
-                qtests = [n.id for n in fa.cfg.nodes if n.kind == "test" and "in self.%s" % cm.queue in A.norm(n.ast)]
-                okq = bool(rem) and all(fa.cfg.exit not in fa.cfg.reach([i], removed=fa.nodes_all(rem) + qtests, edge_ok=edge_ok, include_start=False)
+                rem = [x for x in fa.calls("remove") if self_attr(A.call_recv(x), cm.queue) and x.args and _xn(fa, x.args[0], x) == k]
+                # the queue entry goes whenever the key may be queued, also when it was not resident: a path may skip
+                # the removal only on the edge that says the key is not in the queue
+                not_queued = branch_filter(fa, lambda t_, p_, k=k: not p_ and (t_ == "%s in self.%s" % (k, cm.queue) or t_ in ("self.%s.count(%s)" % (cm.queue, k), "self.%s.count(%s) > 0" % (cm.queue, k))))
+                okq = bool(rem) and all(fa.cfg.exit not in fa.cfg.reach([i], removed=fa.nodes_all(rem), edge_ok=both(edge_ok, not_queued), include_start=False)
                                         for i in fa.nodes(st))
                 ck.ob(R, fa.key(st, "pop-queue"), okq,
                       "the popped key is removed from the recency queue on every path" if okq else
@@ -136,37 +207,53 @@ def check_accounting(ck, cm: CacheModel):
                 for t in st.targets:
                     if isinstance(t, ast.Subscript) and self_attr(t.value, cm.map):
                         k = A.norm(t.slice)
+                        kx = _xn(fa, t.slice, st)
                         blk = _block_of(fa, st)
                         entry, size_expr, forms = size_forms(fa, st)
+                        ins_nodes = fa.nodes(st)
                         ok = False
                         why = "no `%s += <size>` beside the insertion" % cm.counter
                         if size_expr is None:
                             why = "cannot see the size the inserted entry was built with"
                         else:
-                            for s2 in blk:
+                            bt = BudgetTests(fa, cm, st, entry, size_expr, forms)
+                            good = []
+                            for s2 in fa.stmts((ast.AugAssign, ast.Assign)):
+                                near = s2 in blk or not _in_loop(fa, st)
                                 if isinstance(s2, ast.AugAssign) and self_attr(s2.target, cm.counter):
                                     if not isinstance(s2.op, ast.Add):
-                                        why = "counter updated with %s at an insertion" % type(s2.op).__name__
-                                    elif A.norm(s2.value) not in forms:
-                                        why = "counter grows by `%s` but the entry records `%s`" % (A.norm(s2.value), A.norm(size_expr))
+                                        if s2 in blk:
+                                            why = "counter updated with %s at an insertion" % type(s2.op).__name__
+                                    elif not (A.norm(s2.value) in forms or any(bt._is_size(s2.value, i) for i in fa.nodes(s2))):
+                                        if near:
+                                            why = "counter grows by `%s` but the entry records `%s`" % (A.norm(s2.value), A.norm(size_expr))
                                     elif isinstance(size_expr, ast.Name) and not all(
                                         fa.df.same_defs(size_expr.id, a, b)
                                         for a in fa.nodes(s2) for b in fa.nodes(fa.stmt_of(entry) or st)):
-                                        why = "the size is redefined between building the entry and accounting for it"
+                                        if near:
+                                            why = "the size is redefined between building the entry and accounting for it"
                                     else:
-                                        ok, why = True, ""
-                                elif isinstance(s2, ast.Assign) and any(self_attr(x, cm.counter) for x in s2.targets):
+                                        good.append(s2)
+                                elif isinstance(s2, ast.Assign) and any(self_attr(x, cm.counter) for x in s2.targets) and s2 in blk:
                                     why = "counter is overwritten (=) instead of incremented at an insertion"
+                            in_blk = [s2 for s2 in good if s2 in blk]
+                            if len(in_blk) == 1 and not [s2 for s2 in blk if isinstance(s2, ast.Assign) and any(self_attr(x, cm.counter) for x in s2.targets)]:
+                                ok, why = True, ""
+                            elif good and not _in_loop(fa, st) and every_path_through(fa, ins_nodes, fa.nodes_all(good)) and at_most_once(fa, fa.nodes_all(good)) \
+                                    and not [s2 for s2 in fa.stmts(ast.Assign) if any(self_attr(x, cm.counter) for x in s2.targets)]:
+                                ok, why = True, ""
                         ck.ob(R, fa.key(st, "ins-map"), ok, why or "insertion balanced by counter increment", fa.where(st))
-                        app = [s2 for s2 in blk if isinstance(s2, ast.Expr) and isinstance(s2.value, ast.Call)
-                               and A.call_attr(s2.value) == "append" and self_attr(A.call_recv(s2.value), cm.queue)
-                               and s2.value.args and A.norm(s2.value.args[0]) == k]
-                        ck.ob(R, fa.key(st, "ins-queue"), len(app) == 1,
-                              "key appended (right end) to the recency queue once" if len(app) == 1 else
+                        app_all = [s2 for s2 in fa.stmts(ast.Expr) if isinstance(s2.value, ast.Call)
+                                   and A.call_attr(s2.value) == "append" and self_attr(A.call_recv(s2.value), cm.queue)
+                                   and s2.value.args and _xn(fa, s2.value.args[0], s2) == kx]
+                        app = [s2 for s2 in app_all if s2 in blk]
+                        okq = len(app) == 1 or (not app and not _in_loop(fa, st) and bool(app_all) and every_path_through(fa, ins_nodes, fa.nodes_all(app_all))
+                                                and at_most_once(fa, fa.nodes_all(app_all)))
+                        ck.ob(R, fa.key(st, "ins-queue"), okq,
+                              "key appended (right end) to the recency queue once" if okq else
                               "the inserted key is appended to the recency queue %d times in the block" % len(app), fa.where(st))
                         # overwrite cannot leak: an eviction of the same key dominates the insertion
-                        ev = [c for c in fa.calls(cm.evict.name) if cm.is_self_call(c, cm.evict) and c.args and A.norm(c.args[0]) == k]
-                        ins_nodes = fa.nodes(st)
+                        ev = [c for c in fa.calls(cm.evict.name) if cm.is_self_call(c, cm.evict) and c.args and _xn(fa, c.args[0], c) == kx]
                         dom = bool(ev) and all(fa.cfg.must_pass(fa.nodes_all(ev), n) for n in ins_nodes)
                         ck.ob(R, fa.key(st, "ins-after-evict"), dom,
                               "an eviction of the same key dominates the insertion" if dom else
@@ -187,6 +274,12 @@ def check_accounting(ck, cm: CacheModel):
                     or any(A.call_attr(c) in ("pop", "popitem") and self_attr(A.call_recv(c), cm.map) for c in A.calls_in(s2)
                            if not isinstance(s2, (ast.If, ast.For, ast.While, ast.With, ast.Try)))
                     for s2 in blk)
+                if not paired and not _in_loop(fa, st):
+                    # not side by side: every path through the adjustment also changes the resident map
+                    mut = [s2 for s2 in fa.stmts((ast.Delete, ast.Assign)) if any(isinstance(t, ast.Subscript) and self_attr(t.value, cm.map)
+                                                                                     for t in (s2.targets if isinstance(s2, (ast.Delete, ast.Assign)) else []))]
+                    mut += [c for c in fa.calls() if A.call_attr(c) in ("pop", "popitem") and self_attr(A.call_recv(c), cm.map)]
+                    paired = bool(mut) and every_path_through(fa, fa.nodes(st), fa.nodes_all(mut))
                 ck.ob(R, fa.key(st, "counter-aug"), paired,
                       "counter adjustment sits beside a map mutation" if paired else
                       "counter adjusted without a map mutation in the same block", fa.where(st))
@@ -211,30 +304,227 @@ def check_accounting(ck, cm: CacheModel):
                         ck.ob(R, "%s::%s" % (q, A.head(n)), False, "an entry's recorded size is modified after construction", A.loc(fi, n))
     ce = ck.repo.cls("storage_base._CacheEntry").methods.get("__init__")
     ck.need(ce is not None, "_CacheEntry.__init__ not found")
-    stores = [s for s in A.all_stmts(ce.node) if isinstance(s, ast.Assign) and any(self_attr(t, "obj_size") for t in s.targets)
-              and isinstance(s.value, ast.Name) and s.value.id == "obj_size"]
+    stores = [s for s in A.all_stmts(ce.node) if any(self_attr(t, "obj_size") and isinstance(v, ast.Name) and v.id == "obj_size" for (t, v) in assign_pairs(s))]
     ck.ob(R, ce.qual + "::obj_size", bool(stores), "entry stores the size it was given" if stores else
           "_CacheEntry does not store its obj_size parameter", A.loc(ce, ce.node))
 
 
-def _cmp_gt_budget(test, cm, forms):
-    """Recognise `<size> > self.budget` or `self.counter + <size> > self.budget` in a test.
-    Returns 'oversize' / 'room' / None."""
-    for atom in A.conj_atoms(test):
-        if isinstance(atom, ast.Compare) and len(atom.ops) == 1:
-            l, op, r = atom.left, atom.ops[0], atom.comparators[0]
-            if isinstance(op, ast.Lt):
-                l, r, op = r, l, ast.Gt()
-            if isinstance(op, ast.Gt) and self_attr(r, cm.budget):
-                if A.norm(l) in forms:
-                    return "oversize"
-                if isinstance(l, ast.BinOp) and isinstance(l.op, ast.Add):
-                    parts = [l.left, l.right]
-                    has_counter = any(self_attr(p, cm.counter) for p in parts)
-                    has_size = any(A.norm(p) in forms for p in parts)
-                    if has_counter and has_size:
-                        return "room"
-    return None
+class BudgetTests:
+    """What the branch tests of an inserting method establish about the budget, whatever their spelling.
+
+    A comparison is brought to the linear form `k * (counter + size - budget) <op> 0` (room) or
+    `k * (size - budget) <op> 0` (oversize): operands on either side, `>` / `<` / `>=` / `<=` / `not`,
+    `budget - counter < size`, a temporary for the (immutable) budget or for a counter read that is still
+    current all give the same facts.  A test of the recency queue (`len(q) > 0`, `q`, `not q`, `len(q) == 0`,
+    `0 < len(q)`, ...) is evaluated on lengths to see which outcome means "empty".  An edge of a compound test
+    establishes a fact when the truth table of its and / or / not structure says so."""
+
+    def __init__(self, fa: FA, cm: CacheModel, ins, entry, size_expr, forms):
+        self.fa, self.cm, self.ins, self.entry, self.size_expr, self.forms = fa, cm, ins, entry, size_expr, forms
+        self.ins_nodes = fa.nodes(ins)
+        self.entry_nodes = fa.nodes(entry) or self.ins_nodes
+        self.unclassified = []  # leaves that read counter / queue / budget / size but have no recognised meaning
+        self._writers = None
+
+    # -- roles of the operands ---------------------------------------------------------------------
+    def writers(self):
+        """CFG nodes that may change the counter or the queue: a call on self / on a state slot, a store to self.*"""
+        if self._writers is None:
+            out = set()
+            for n in self.fa.cfg.nodes:
+                if n.ast is None or n.kind not in ("stmt", "test", "for", "with"):
+                    continue
+                root = n.ast.iter if n.kind == "for" else n.ast
+                if n.kind == "with":
+                    root = ast.Tuple(elts=[i.context_expr for i in n.ast.items], ctx=ast.Load())
+                for x in A.walk_local(root):
+                    if isinstance(x, ast.Call) and isinstance(x.func, ast.Attribute):
+                        rv = x.func.value
+                        if (isinstance(rv, ast.Name) and rv.id == "self") or self_attr(rv) in self.cm.mutable_slots:
+                            out.add(n.id)
+                    if isinstance(x, ast.Attribute) and isinstance(x.ctx, (ast.Store, ast.Del)) and self_attr(x):
+                        out.add(n.id)
+                    if isinstance(x, ast.Subscript) and isinstance(x.ctx, (ast.Store, ast.Del)) and self_attr(x.value):
+                        out.add(n.id)
+            self._writers = out
+        return self._writers
+
+    def _fresh(self, def_node, use_node) -> bool:
+        """The value bound at `def_node` is still what the state holds at `use_node`: no writer in between."""
+        cfg = self.fa.cfg
+        r1 = cfg.reach([def_node], removed=[def_node], include_start=False)
+        for w in self.writers() & r1:
+            if w == use_node:
+                continue
+            if use_node in cfg.reach([w], removed=[def_node], include_start=False):
+                return False
+        return True
+
+    def _through_local(self, t, nid):
+        """`t` or, for a local with one reaching plain assignment, (the assigned value, its node)."""
+        if isinstance(t, ast.Name):
+            ds = self.fa.df.reaching(nid, t.id)
+            if len(ds) == 1 and ds[0].kind == "assign" and ds[0].value is not None:
+                return ds[0].value, ds[0].node
+        return t, None
+
+    def _is_size(self, t, nid) -> bool:
+        fa = self.fa
+        se = self.size_expr
+        if isinstance(t, ast.Name):
+            if isinstance(se, ast.Name) and se.id == t.id:
+                return all(fa.df.same_defs(t.id, nid, i) for i in self.entry_nodes)
+            v, dn = self._through_local(t, nid)
+            if dn is not None and v is not t:
+                return self._is_size(v, dn)
+            return False
+        if isinstance(t, ast.Attribute) and t.attr == "obj_size":
+            v, dn = self._through_local(t.value, nid)
+            if v is self.entry or (isinstance(self.ins.value, ast.Name) and isinstance(t.value, ast.Name) and t.value.id == self.ins.value.id
+                                   and all(fa.df.same_defs(t.value.id, nid, i) for i in self.ins_nodes)):
+                return True
+            return False
+        if not isinstance(se, ast.Name):
+            try:
+                return fa.xnorm(t, nid) == fa.xnorm(se, self.entry_nodes[0])
+            except AnalysisError:
+                return False
+        return False
+
+    def role(self, t, nid):
+        cm = self.cm
+        if self_attr(t, cm.budget):
+            return "budget"
+        if self_attr(t, cm.counter):
+            return "counter"
+        if isinstance(t, ast.Constant) and t.value == 0 and t.value is not False:
+            return "zero"
+        if self._is_size(t, nid):
+            return "size"
+        v, dn = self._through_local(t, nid)
+        if dn is not None:
+            if self_attr(v, cm.budget):
+                return "budget"  # never reassigned after construction (C06.R1)
+            if self_attr(v, cm.counter) and self._fresh(dn, nid):
+                return "counter"
+        return None
+
+    # -- facts established by one leaf --------------------------------------------------------------
+    def budget_fact(self, leaf, nid):
+        """-> (kind, {True: fact, False: fact}) with kind 'room' | 'oversize' | 'counter-only', fact 'fits' | 'over' | None;
+        None when the leaf is not a comparison of these quantities."""
+        if not (isinstance(leaf, ast.Compare) and len(leaf.ops) == 1):
+            return None
+        op = type(leaf.ops[0])
+        if op not in (ast.Gt, ast.Lt, ast.GtE, ast.LtE, ast.Eq, ast.NotEq):
+            return None
+        terms = [(s, t, nid) for (s, t) in linear_terms(leaf.left)] + [(-s, t, nid) for (s, t) in linear_terms(leaf.comparators[0])]
+        vec = {"counter": 0, "size": 0, "budget": 0}
+        budget_steps = 0
+        while terms:
+            (sg, t, at) = terms.pop()
+            r = self.role(t, at)
+            if r is None:
+                # a local holding a sum / difference of these quantities (`needed = self.counter + size`), computed where it is still current
+                v, dn = self._through_local(t, at)
+                budget_steps += 1
+                if dn is not None and isinstance(v, ast.BinOp) and isinstance(v.op, (ast.Add, ast.Sub)) and self._fresh(dn, at) and budget_steps < 12:
+                    terms += [(sg * s2, t2, dn) for (s2, t2) in linear_terms(v)]
+                    continue
+                return None
+            if r != "zero":
+                vec[r] += sg
+        v = (vec["counter"], vec["size"], vec["budget"])
+        kinds = {(1, 1, -1): ("room", 1), (-1, -1, 1): ("room", -1), (0, 1, -1): ("oversize", 1), (0, -1, 1): ("oversize", -1),
+                 (1, 0, -1): ("counter-only", 1), (-1, 0, 1): ("counter-only", -1)}
+        if v not in kinds:
+            return None
+        kind, k = kinds[v]
+        if k < 0:
+            op = {ast.Gt: ast.Lt, ast.Lt: ast.Gt, ast.GtE: ast.LtE, ast.LtE: ast.GtE}.get(op, op)
+        # excess <op> 0, where excess <= 0 means "fits"
+        table = {ast.Gt: {True: "over", False: "fits"}, ast.LtE: {True: "fits", False: "over"},
+                 ast.GtE: {True: None, False: "fits"}, ast.Lt: {True: "fits", False: None},
+                 ast.Eq: {True: "fits", False: None}, ast.NotEq: {True: None, False: "fits"}}[op]
+        if kind == "counter-only":
+            table = {True: None, False: None}
+        return kind, table
+
+    def _is_queue_len(self, e, nid):
+        v, dn = self._through_local(e, nid)
+        if dn is not None and not self._fresh(dn, nid):
+            return False
+        return isinstance(v, ast.Call) and isinstance(v.func, ast.Name) and v.func.id == "len" and len(v.args) == 1 and bool(self_attr(v.args[0], self.cm.queue))
+
+    def empty_fact(self, leaf, nid):
+        """-> {True: fact, False: fact} with fact 'empty' | 'nonempty' | None; None when the leaf does not test the queue."""
+        q = self.cm.queue
+        v, dn = self._through_local(leaf, nid)
+        if dn is not None and not self._fresh(dn, nid):
+            return None
+        if self_attr(v, q) or self._is_queue_len(v, nid) or (isinstance(v, ast.Call) and isinstance(v.func, ast.Name) and v.func.id == "bool"
+                                                             and len(v.args) == 1 and (self_attr(v.args[0], q) or self._is_queue_len(v.args[0], nid))):
+            return {True: "nonempty", False: "empty"}
+        if isinstance(v, ast.Compare) and len(v.ops) == 1:
+            l, r = v.left, v.comparators[0]
+            opf = {ast.Gt: lambda a, b: a > b, ast.Lt: lambda a, b: a < b, ast.GtE: lambda a, b: a >= b, ast.LtE: lambda a, b: a <= b,
+                   ast.Eq: lambda a, b: a == b, ast.NotEq: lambda a, b: a != b}.get(type(v.ops[0]))
+            if opf is None:
+                return None
+            if self._is_queue_len(l, nid) and isinstance(r, ast.Constant) and isinstance(r.value, int):
+                f = lambda n: opf(n, r.value)
+                c = r.value
+            elif self._is_queue_len(r, nid) and isinstance(l, ast.Constant) and isinstance(l.value, int):
+                f = lambda n: opf(l.value, n)
+                c = l.value
+            else:
+                return None
+            dom = range(0, max(c, 0) + 4)
+            true_set = {n for n in dom if f(n)}
+            false_set = set(dom) - true_set
+            return {True: "empty" if true_set == {0} else ("nonempty" if true_set and 0 not in true_set else None),
+                    False: "empty" if false_set == {0} else ("nonempty" if false_set and 0 not in false_set else None)}
+        return None
+
+    # -- edges ------------------------------------------------------------------------------------------
+    def establishing(self, kind):
+        """Branch edges (test node id, 'T' | 'F') whose taking implies: kind 'oversize' -> size <= budget;
+        kind 'room' -> counter + size <= budget, or the queue is empty."""
+        out = set()
+        cm = self.cm
+        watched = {"attr:self." + cm.counter, "attr:self." + cm.queue, "attr:self." + cm.budget}
+        for n in self.fa.cfg.nodes:
+            if n.kind != "test" or n.ast is None:
+                continue
+            facts = {}
+            for lf in bool_leaves(n.ast):
+                bf = self.budget_fact(lf, n.id)
+                ef = self.empty_fact(lf, n.id) if kind == "room" else None
+                facts[id(lf)] = (bf, ef)
+                if bf is None and ef is None and kind == "room" and isinstance(self.fa.pm.get(n.ast), ast.While):
+                    try:
+                        d = self.fa.df.deps(lf, n.id)
+                    except Exception:
+                        d = set()
+                    if d & watched and lf not in [u for (u, _) in self.unclassified]:
+                        self.unclassified.append((lf, n.id))
+
+            def fact_of(lf, value, facts=facts):
+                bf, ef = facts[id(lf)]
+                if bf is not None and bf[0] == kind and bf[1][value] == "fits":
+                    return True
+                if ef is not None and ef[value] == "empty":
+                    return True
+                return False
+
+            for label in ("T", "F"):
+                if edge_implies(n.ast, label == "T", fact_of):
+                    out.add((n.id, label))
+        return out
+
+
+def _without(edges):
+    return lambda s, d, l: (s, l) not in edges
 
 
 def check_budget(ck, cm: CacheModel):
@@ -257,76 +547,78 @@ def _check_budget_site(ck, cm, R, fa, ins):
     size = size_expr.id if isinstance(size_expr, ast.Name) else None
     size_txt = A.norm(size_expr)
     cfg = fa.cfg
-    # (a) oversize guard
-    guards = []
-    loops = []
-    for n in cfg.nodes:
-        if n.kind == "test":
-            kind = _cmp_gt_budget(n.ast, cm, forms)
-            st = fa.pm.get(n.ast)
-            if kind == "oversize" and isinstance(st, ast.If):
-                guards.append(n.id)
-            if kind == "room" and isinstance(st, ast.While):
-                loops.append(n.id)
-    okg = False
-    for g in guards:
-        dom = all(cfg.must_pass([g], i) for i in ins_nodes)
-        # through the True edge the insertion must be unreachable
-        viaT = cfg.reach([g], edge_ok=lambda s, d, l, g=g: not (s == g and l == "F"))
-        if dom and not (set(ins_nodes) & viaT):
-            okg = True
+    bt = BudgetTests(fa, cm, ins, entry, size_expr, forms)
+    # (a) oversize guard: every way to the insertion takes a branch edge that implies size <= budget
+    est_over = bt.establishing("oversize")
+    okg = not (set(ins_nodes) & cfg.reach([cfg.entry], edge_ok=_without(est_over)))
     ck.ob(R, fa.key(ins, "oversize-guard"), okg,
           "`%s > %s` exits before the insertion on every path" % (size_txt, cm.budget) if okg else
           "no dominating `%s > self.%s` guard whose true-branch avoids the insertion: an oversize result can become resident" % (size_txt, cm.budget),
           fa.where(ins))
-    # (b) evict-until-fits loop
-    okl = False
-    loop_node = None
-    for w in loops:
-        if all(cfg.must_pass([w], i) for i in ins_nodes):
-            okl = True
-            loop_node = w
+    # (b) evict-until-fits: every way to the insertion takes a branch edge that implies
+    #     counter + size <= budget or an empty queue, and nothing is written afterwards
+    est_room = bt.establishing("room")
+    g_room = _without(est_room)
+    okl = not (set(ins_nodes) & cfg.reach([cfg.entry], edge_ok=g_room))
+    if not okl and bt.unclassified and not any(bt.budget_fact(lf, nid) for (lf, nid) in bt.unclassified):
+        # a loop test over counter / queue / budget in a form whose meaning is not decided here
+        raise AnalysisError("%s: the test `%s` of the eviction loop reads the cache accounts in a form this rule cannot interpret"
+                            % (fa.qual, A.short(bt.unclassified[0][0], 60)))
     ck.ob(R, fa.key(ins, "room-loop"), okl,
           "evict-until-fits loop `while ... %s + %s > %s` dominates the insertion" % (cm.counter, size_txt, cm.budget) if okl else
           "no dominating loop on `self.%s + %s > self.%s`: the budget can be exceeded" % (cm.counter, size_txt, cm.budget),
           fa.where(ins))
-    if loop_node is not None:
-        wst = fa.pm.get(cfg.node(loop_node).ast)
-        # the other conjunct may only be a queue-non-empty test
-        others = [a for a in A.conj_atoms(cfg.node(loop_node).ast) if _cmp_gt_budget(a, cm, forms) is None]
-        q = "self.%s" % cm.queue
-        ok_other = all(A.norm(a) in ("len(%s) > 0" % q, "len(%s)" % q, q, "len(%s) != 0" % q, "len(%s) >= 1" % q, "0 < len(%s)" % q) for a in others)
+    # the loops that make room: While statements that evict and lead to the insertion
+    loops = []
+    for wst in fa.stmts(ast.While):
+        evs = [c for c in A.calls_in(wst) if cm.is_self_call(c, cm.evict)]
+        heads = fa.nodes(wst.test)
+        if evs and heads and any(set(ins_nodes) & cfg.reach([h]) for h in heads):
+            loops.append((wst, evs, heads))
+    for (wst, evs, heads) in loops:
+        ok_other = not (set(ins_nodes) & cfg.reach(heads, edge_ok=g_room))
         ck.ob(R, fa.key(wst, "loop-test"), ok_other,
               "loop stops only when it fits or nothing is left to evict" if ok_other else
-              "loop has an extra exit condition (%s): it may stop before the new entry fits" % [A.norm(a) for a in others],
+              "the eviction loop can be left (%s) without `self.%s + %s <= self.%s` or an empty queue: it may stop before the new entry fits"
+              % (", ".join(sorted({"`%s`" % A.short(cfg.node(s).ast, 50) for (s, l) in _loop_exits(fa, wst) if not isinstance(cfg.node(s).ast, ast.Constant)
+                                   and (s, "T") not in est_room and (s, "F") not in est_room})) or "extra exit",
+                 cm.counter, size_txt, cm.budget),
               fa.where(wst))
         # loop body evicts the left end of the queue
-        evs = [c for c in A.calls_in(wst) if cm.is_self_call(c, cm.evict)]
-        left = [c for c in evs if c.args and isinstance(c.args[0], ast.Call) and A.call_attr(c.args[0]) == "popleft"
-                and self_attr(A.call_recv(c.args[0]), cm.queue)]
+        left = []
+        for c in evs:
+            if not c.args:
+                continue
+            a0 = safe_expand(fa, c.args[0], c)
+            if isinstance(a0, ast.Call) and A.call_attr(a0) == "popleft" and self_attr(A.call_recv(a0), cm.queue):
+                left.append(c)
         ck.ob("C06.R3", fa.key(wst, "evict-lru-end"), bool(left),
               "the loop evicts queue.popleft() (least recently used end)" if left else
               "the loop does not evict the left (least recently used) end of the queue", fa.where(wst))
-        # nothing between loop exit and insertion touches counter / size / budget
-        after = cfg.reach([loop_node], removed=ins_nodes, edge_ok=lambda s, d, l: not (s == loop_node and l == "T"), include_start=False)
+    if okl:
+        # nothing between the establishing edge and the insertion touches counter / size / budget
         bad = []
-        for i in after:
-            n = cfg.node(i)
-            for d in fa.df.gen.get(i, []):
+        for n in cfg.nodes:
+            if n.ast is None:
+                continue
+            w = False
+            for d in fa.df.gen.get(n.id, []):
                 if d.name in ((size,) if size else ()) + ("self." + cm.counter, "self." + cm.budget):
-                    bad.append(n)
-            if n.ast is not None:
-                for c in A.calls_in(n.ast) if n.kind == "stmt" else []:
+                    w = True
+            if n.kind == "stmt":
+                for c in A.calls_in(n.ast):
                     if cm.is_self_call(c, cm.evict) or any(cm.is_self_call(c, mi) for mi in cm.inserts):
-                        bad.append(n)
-        # only nodes that can still reach the insertion matter
-        bad = [n for n in bad if set(ins_nodes) & cfg.reach([n.id], include_start=False)]
+                        w = True
+            if n.kind == "stmt" and isinstance(n.ast, ast.AugAssign) and isinstance(n.ast.op, ast.Add) and self_attr(n.ast.target, cm.counter) \
+                    and (A.norm(n.ast.value) in forms or bt._is_size(n.ast.value, n.id)) and not any(cm.is_self_call(c, cm.evict) for c in A.calls_in(n.ast)):
+                w = False  # the account of this very insertion, written just ahead of it (held to exactly-once by C06.R1 ins-map)
+            if w and n.id not in ins_nodes and set(ins_nodes) & cfg.reach([n.id], edge_ok=g_room, include_start=False):
+                bad.append(n)
         ck.ob(R, fa.key(ins, "no-write-after-loop"), not bad,
               "no write to counter/size/budget between loop exit and insertion" if not bad else
               "counter/size/budget written between the loop exit and the insertion: %s" % [A.head(n.ast) for n in bad],
               fa.where(ins))
     # the size variable is the estimate of the very object that is stored
-    val = entry.args[2] if len(entry.args) > 2 else A.kwarg(entry, "value")
     def _is_est(v):
         return v is not None and isinstance(v, ast.Call) and "estimate" in (A.call_attr(v) or "")
     if size is not None:
@@ -339,6 +631,15 @@ def _check_budget_site(ck, cm, R, fa, ins):
     ck.ob(R, fa.key(ins, "size-is-estimate"), ok_est,
           "the accounted size is the estimate computed for this put" if ok_est else
           "the accounted size does not come from the size estimator", fa.where(ins))
+
+
+def _loop_exits(fa, wst):
+    """Branch edges (node, label) of tests inside the loop `wst` (its own test included)."""
+    out = []
+    for n in fa.cfg.nodes:
+        if n.kind == "test" and n.ast is not None and (n.ast is wst.test or fa.inside(n.ast, wst)):
+            out += [(n.id, "T"), (n.id, "F")]
+    return out
 
 
 def check_estimates_bounded_below(ck, cm, R):
@@ -354,15 +655,15 @@ def check_estimates_bounded_below(ck, cm, R):
         for r in fa.returns():
             if r.value is None:
                 continue
-            e = fa.expand(r.value)
+            e = safe_expand(fa, r.value, r)
             subs = [x for x in ast.walk(e) if isinstance(x, ast.BinOp) and isinstance(x.op, ast.Sub)] + \
                    [x for x in ast.walk(e) if isinstance(x, ast.UnaryOp) and isinstance(x.op, ast.USub)]
             if not subs:
                 continue
             n += 1
-            top = r.value
+            top = e
             ok = isinstance(top, ast.Call) and isinstance(top.func, ast.Name) and top.func.id == "max" and len(top.args) >= 2 and \
-                any(not any(isinstance(y, ast.BinOp) and isinstance(y.op, ast.Sub) for y in ast.walk(fa.expand(a))) for a in top.args)
+                any(not any(isinstance(y, ast.BinOp) and isinstance(y.op, ast.Sub) for y in ast.walk(a)) for a in top.args)
             ck.ob(R, fa.key(r, "estimate-bounded-below"), ok,
                   "the extrapolated size is bounded below by a measured one" if ok else
                   "`%s` extrapolates from a difference of two sample measurements and can come out negative (heavy rows in the small sample): the entry "
@@ -372,12 +673,30 @@ def check_estimates_bounded_below(ck, cm, R):
 
 def check_queue_unbounded(ck, cm, R):
     ini = FA(ck, cm.init)
-    for st in ini.stmts(ast.Assign):
-        if any(self_attr(t, cm.queue) for t in st.targets) and isinstance(st.value, ast.Call):
-            ok = not st.value.args and not st.value.keywords
+    for st in ini.stmts((ast.Assign, ast.AnnAssign)):
+        qv = [v for (t, v) in assign_pairs(st) if self_attr(t, cm.queue) and isinstance(v, ast.Call)]
+        if qv:
+            ok = not qv[0].args and not qv[0].keywords
             ck.ob(R, ini.key(None, "queue-unbounded"), ok, "the recency queue never drops keys on its own" if ok else
                   "the recency queue is constructed as `%s`: once full it silently drops the oldest key while its entry stays resident, so that entry "
-                  "can never be evicted and the budget is exceeded" % A.norm(st.value), ini.where(st))
+                  "can never be evicted and the budget is exceeded" % A.norm(qv[0]), ini.where(st))
+
+
+def _answers_presence(f2: FA, r) -> bool:
+    """Can this return hand out a positive presence answer: the constant True, a membership test, or a local that may hold one?"""
+    def yes(e, depth=0):
+        for x in ast.walk(e):
+            if isinstance(x, ast.Constant) and x.value is True:
+                return True
+            if isinstance(x, ast.Compare) and any(isinstance(o, (ast.In, ast.NotIn)) for o in x.ops):
+                return True
+            if isinstance(x, ast.Name) and isinstance(x.ctx, ast.Load) and depth < 3:
+                for i in f2.nodes(r):
+                    for d in f2.df.reaching(i, x.id):
+                        if d.kind == "assign" and d.value is not None and yes(d.value, depth + 1):
+                            return True
+        return False
+    return yes(r.value)
 
 
 def check_lru(ck, cm: CacheModel):
@@ -425,26 +744,41 @@ def check_lru(ck, cm: CacheModel):
         for r in f2.returns():
             if r.value is None:
                 continue
-            deps = set()
-            for i in f2.nodes(r):
-                deps |= f2.df.deps(r.value, i)
-            from_map = any(d == "attr:self.%s" % cm.map for d in deps) and "getattr:value" in deps
-            if from_map:
-                ok = all(f2.cfg.must_pass(marks, i) for i in f2.nodes(r))
+            # where the served value is read out of the resident map: in the return itself, or into a result variable
+            reads = []
+            for (v_, at_) in value_sources(f2, r):
+                deps = f2.df.deps(v_, at_)
+                if any(d == "attr:self.%s" % cm.map for d in deps) and "getattr:value" in deps:
+                    reads.append(at_)
+            if reads:
+                # every path that reads a resident value refreshes the key's recency (before or after the read)
+                ok = every_path_through(f2, reads, marks)
                 ck.ob(R, f2.key(r, "hit-marks-used"), ok,
                       "a served value is marked used" if ok else
                       "a resident value is returned without refreshing its recency", f2.where(r))
-        # (2) `if key in self.map:` whose true-branch returns True
+        # (2) a presence answer: on the branch edge that says "the key is resident" (`k in self.map`, `self.map.get(k) is not None`,
+        # either polarity / nesting / through a temporary), every path to a return that can answer "present" refreshes the recency
         for n in f2.cfg.nodes:
-            if n.kind == "test" and isinstance(n.ast, ast.Compare) and len(n.ast.ops) == 1 and isinstance(n.ast.ops[0], ast.In) \
-                    and self_attr(n.ast.comparators[0], cm.map):
-                st = f2.pm.get(n.ast)
-                if not isinstance(st, ast.If):
+            if n.kind != "test" or n.ast is None or isinstance(f2.pm.get(n.ast), ast.While):
+                continue
+            for label in ("T", "F"):
+                try:
+                    atoms = f2._atoms(n.ast, n.id, label == "T")
+                except AnalysisError:
                     continue
-                rets_true = [s for s in A.walk_local(st) if isinstance(s, ast.Return) and isinstance(s.value, ast.Constant) and s.value.value is True
-                             and any(s in A.walk_local(b) for b in st.body)]
-                for r in rets_true:
-                    ok = all(f2.cfg.must_pass(marks, i, start=n.id) for i in f2.nodes(r))
+                present = any(p_ and t_.endswith(" in self.%s" % cm.map) for (t_, p_) in atoms)
+                if not present:
+                    continue
+                starts = [d for (d, l) in f2.cfg.succ[n.id] if l == label]
+                for r in f2.returns():
+                    if r.value is None or not _answers_presence(f2, r):
+                        continue
+                    rn = [i for i in f2.nodes(r) if i in f2.cfg.reach(starts)]
+                    if not rn:
+                        continue
+                    if any(d == "attr:self.%s" % cm.map for i in rn for d in f2.df.deps(r.value, i)) and "getattr:value" in set().union(*[f2.df.deps(r.value, i) for i in rn]):
+                        continue  # a served value: obligation (1)
+                    ok = all(i in marks or (i not in f2.cfg.reach(starts, removed=marks)) for i in rn)
                     ck.ob(R, f2.key(r, "present-marks-used"), ok,
                           "a positive presence answer refreshes recency" if ok else
                           "presence of a resident entry is reported without refreshing its recency", f2.where(r))
